@@ -1,8 +1,13 @@
 #!/bin/bash
-# run every claimed check on the unchanged tree; print one line each
+# run every claimed check on the unchanged tree; print one line each.  usage: run_all.sh [tier] [jobs]
 cd "$(dirname "$0")/.."
 tier=${1:-quick}
-for p in $(python3 -c "import json;print(' '.join(c['property_id'] for c in json.load(open('MANIFEST.json'))['checks']))"); do
+jobs=${2:-3}
+one() {
+  p=$1; tier=$2
   out=$(./check $p --tier $tier 2>&1); rc=$?
-  echo "$p exit=$rc $(echo "$out" | grep -E 'obligations|VIOLATION|UNDECIDED|CHECKER' | tail -2 | tr '\n' ' ' | cut -c1-200)"
-done
+  echo "$p exit=$rc $(echo "$out" | grep -E 'obligations|VIOLATION|UNDECIDED|CHECKER' | tail -2 | tr '\n' ' ' | cut -c1-260)"
+}
+export -f one
+python3 -c "import json;print('\n'.join(c['property_id'] for c in json.load(open('MANIFEST.json'))['checks']))" | \
+  xargs -P $jobs -I{} bash -c "one {} $tier" | sort
